@@ -239,6 +239,16 @@ class ListTransformer(converter.Base):
     node.body = self._visit_and_process_block(node.body)
     return node
 
+  def visit_Try(self, node):
+    # Each block is processed on its own, so that the statements generated for
+    # pop() stay inside the block that contains the call.
+    node.body = self._visit_and_process_block(node.body)
+    for handler in node.handlers:
+      handler.body = self._visit_and_process_block(handler.body)
+    node.orelse = self._visit_and_process_block(node.orelse)
+    node.finalbody = self._visit_and_process_block(node.finalbody)
+    return node
+
 
 def transform(node, ctx):
   node = qual_names.resolve(node)
